@@ -217,6 +217,16 @@ def build_model(cluster, extract_v, drivers, model_deps):
     model_deps: .v files (relative to coq/) whose .vo must be built first."""
     d = os.path.join(BUILD, "ml", cluster)
     os.makedirs(d, exist_ok=True)
+    # everything the extraction file itself requires must be built too (not only the declared model files)
+    model_deps = list(model_deps)
+    try:
+        txt = re.sub(r"\(\*.*?\*\)", "", open(os.path.join(COQ, "Extract", extract_v)).read(), flags=re.S)
+        for m in re.finditer(r"\bIP\.([A-Za-z0-9_]+)\.([A-Za-z0-9_]+)", txt):
+            f = "%s/%s.v" % (m.group(1), m.group(2))
+            if os.path.exists(os.path.join(COQ, f)) and f not in model_deps:
+                model_deps.append(f)
+    except OSError:
+        pass
     ok, out = coq_make([f[:-2] + ".vo" for f in model_deps])
     if not ok:
         return False, "model files do not compile:\n" + out[-4000:]
